@@ -841,7 +841,7 @@ func runC28(args []string) error {
 		js, _ := json.Marshal(kept)
 		cf.Add(CoqList(steps), string(js[:0])+fmt.Sprintf("%x", hashBytes(js)), true, "sequences", map[string]interface{}{"fn": "peersync-sequence", "ops": kept})
 	}
-	return cf.Write(*out, 40, map[string]interface{}{"seed": *seed, "slow_retries": slow})
+	return cf.Write(*out, 80, map[string]interface{}{"seed": *seed, "slow_retries": slow})
 }
 
 func hashBytes(b []byte) uint64 {
